@@ -6,7 +6,8 @@ A  real get_sdram_phy_init_sequence for SDR..DDR4/LPDDR4 x latency pairs (defaul
 B  write recovery against the datasheet: module library x clock grid -> timing_settings -> real init sequence ->
    decoded WR vs ceil(tWR/tCK) and vs the controller's wait.
 C  the C and the Python header are parsed back to (address, bank, command, delay) tuples and compared, for plain,
-   RDIMM and clam-shell settings."""
+   RDIMM and clam-shell settings; on clam-shell boards every bottom write is un-mirrored (JEDEC pin mirroring) and compared with
+   the top write before it."""
 import random, re, itertools
 from fractions import Fraction as F
 from decimal import Decimal
@@ -299,6 +300,29 @@ def part_c(tier, seed):
         except Exception as e:
             mism(r, "header generation", input=[mt, cl, cwl, nph, rdimm, clam], impl=repr(e), model="generates")
             continue
+        if clam:
+            # clam-shell boards: the bottom devices' pins are mirrored (JESD79-4 address mirroring: A3<->A4, A5<->A6, A7<->A8,
+            # A11<->A13, BA0<->BA1), so the register a bottom device receives is the mirror image of what is driven: it must be
+            # the register the top device was given in the step before
+            def swp(v, i, j):
+                bi, bj = (v >> i) & 1, (v >> j) & 1
+                return (v & ~((1 << i) | (1 << j))) | (bi << j) | (bj << i)
+            def mirror(a, ba):
+                for i, j in ((3, 4), (5, 6), (7, 8), (11, 13)):
+                    a = swp(a, i, j)
+                return a, swp(ba, 0, 1)
+            nb = 0
+            for k in range(len(c)):
+                if c[k][2].endswith("DFII_COMMAND_CS_BOTTOM"):
+                    nb += 1
+                    top = c[k - 1] if k else None
+                    seen = mirror(c[k][0], c[k][1])
+                    if top is None or not top[2].endswith("DFII_COMMAND_CS_TOP") or seen != (top[0], top[1]):
+                        viol(r, "c17-clamshell-mirror", "%s rdimm=%s clam-shell: step %d drives address %#x bank %d to the bottom devices, which receive (pins mirrored) address %#x bank %d; the top devices were given %s"
+                             % (mt, rdimm, k, c[k][0], c[k][1], seen[0], seen[1], None if top is None else "address %#x bank %d" % (top[0], top[1])),
+                             dict(memtype=mt, rdimm=rdimm, step=k, bottom=list(c[k]), top=None if top is None else list(top)))
+                        break
+            r.coverage["partC_bottom_writes_checked"] = r.coverage.get("partC_bottom_writes_checked", 0) + nb
         if c != p:
             k = next((i for i, (x, y) in enumerate(zip(c, p)) if x != y), min(len(c), len(p)))
             sig = "c17-py-clamshell" if clam else "c17-c-py-differ"
